@@ -266,7 +266,12 @@ void run(size_t idx) {
 	}
 	{
 		uint64_t seed = mix(g_cfg.seed, 0xA91000 + idx);
-		ApiModel m = buildApiModel(seed, (int)idx);
+		ApiOpts tb;
+		tb.version = "OB";
+		tb.tangents = true;
+		tb.foreignBinaryExtraFirst = true;
+		// one model in six: Oblivion shapes with tangents whose extra data list starts with a binary block of another name
+		ApiModel m = idx % 6 == 3 ? buildApiModel(seed, (int)idx, &tb) : buildApiModel(seed, (int)idx);
 		R_caseDesc("api:" + m.desc);
 		if (!m.ok) { R_stat("api_model_rejected"); return; }
 		if (idx % 6 == 0 && m.nif->GetRootNode()) {
